@@ -94,14 +94,21 @@ KIND_LINES = {
 PATH_METHODS = {8: "GET /p", 9: "POST /p", 10: "PUT /p", 11: "PATCH /p", 12: "DELETE /p"}
 
 
-def render_items(items, uniq=True):
+BODY_INSIDE = {13: ("Body", "{}"), 14: ("Request", "{}"), 15: ("200", "{}"), 16: ("Path", "{}"), 17: ("Headers", "{}"), 18: ("Query", "{}"),
+               19: ("TYPE @t", "{}"), 20: ("ENUM @e", "[1]"), 26: ("Params", "{}"), 27: ("Result", "{}")}
+
+
+def render_items(items, uniq=True, body_inside=False):
     """items: kind index | 'P<kind>' (method with path) | '(' | ')'. Names are made unique so
-    that only CONTEXT decides the outcome of the scan stage."""
+    that only CONTEXT decides the outcome of the scan stage.  body_inside: a directive that has a body and is directly
+    followed by '(' gets its body as the first thing INSIDE the parentheses (`200` / `(` / `{}` ...), not before them."""
     out = []
     n = 0
-    for it in items:
+    for i, it in enumerate(items):
         if it == "(":
             out.append("(")
+            if body_inside and i > 0 and items[i - 1] in BODY_INSIDE:
+                out.append("  " + BODY_INSIDE[items[i - 1]][1])
         elif it == ")":
             out.append(")")
         else:
@@ -110,6 +117,8 @@ def render_items(items, uniq=True):
                 line = PATH_METHODS[int(it[1:])] + str(n)
             else:
                 line = KIND_LINES[it]
+                if body_inside and it in BODY_INSIDE and i + 1 < len(items) and items[i + 1] == "(":
+                    line = BODY_INSIDE[it][0]
                 if uniq:
                     line = line.replace("@t", "@t%d" % n).replace("@e", "@e%d" % n).replace("@s", "@s%d" % n).replace("/u", "/u%d" % n)
                     line = line.replace("@m", "@m%d" % n) if it == 21 else line
